@@ -35,14 +35,20 @@ pub struct GenCfg {
     pub flat: bool,
     /// allow the background flag on a tilemap layer 0 (C08's relation check only)
     pub bg_tilemap: bool,
+    /// the background flag may sit on any image layer, not only the lowest one
+    pub bg_any: bool,
+    /// linked cels carry x / y / opacity of their own that differ from their target's (they render like the target)
+    pub link_junk: bool,
+    /// tile 0 of a tileset may have visible pixels (checks must then stay inside the stored tile area)
+    pub nonblank_tile0: bool,
 }
 
 impl GenCfg {
     pub fn small() -> GenCfg {
-        GenCfg { max_w: 24, max_h: 24, fmt: None, max_layers: 8, max_frames: 5, max_cel: 20, tilemaps: true, groups: true, links: true, attrs: true, extremes: true, blend_modes: true, cel_density: 5, background: true, extreme_cels: false, big: false, aligned_tilemaps: true, flat: false, bg_tilemap: false }
+        GenCfg { max_w: 24, max_h: 24, fmt: None, max_layers: 8, max_frames: 5, max_cel: 20, tilemaps: true, groups: true, links: true, attrs: true, extremes: true, blend_modes: true, cel_density: 5, background: true, extreme_cels: false, big: false, aligned_tilemaps: true, flat: false, bg_tilemap: false, bg_any: false, link_junk: false, nonblank_tile0: false }
     }
     pub fn tiny() -> GenCfg {
-        GenCfg { max_w: 6, max_h: 6, fmt: None, max_layers: 4, max_frames: 3, max_cel: 6, tilemaps: true, groups: true, links: true, attrs: true, extremes: false, blend_modes: true, cel_density: 5, background: true, extreme_cels: false, big: false, aligned_tilemaps: true, flat: false, bg_tilemap: false }
+        GenCfg { max_w: 6, max_h: 6, fmt: None, max_layers: 4, max_frames: 3, max_cel: 6, tilemaps: true, groups: true, links: true, attrs: true, extremes: false, blend_modes: true, cel_density: 5, background: true, extreme_cels: false, big: false, aligned_tilemaps: true, flat: false, bg_tilemap: false, bg_any: false, link_junk: false, nonblank_tile0: false }
     }
 }
 
@@ -240,7 +246,7 @@ pub fn gen_tileset(rng: &mut Rng, sp: &Sprite, id: u32, cfg: &GenCfg) -> Tileset
     }
     let mut pixels = gen_pixels(rng, sp, (count * area) as usize);
     // tile 0 is the empty tile of a well-formed tileset: fully transparent
-    {
+    if !(cfg.nonblank_tile0 && rng.chance(1, 3)) {
         let bpp = sp.fmt.bpp();
         let keep_rgb = rng.chance(1, 4);
         for k in 0..(area as usize) {
@@ -336,6 +342,9 @@ pub fn gen_sprite(rng: &mut Rng, cfg: &GenCfg) -> (Sprite, PaletteProgram) {
         }
         let mut blend = if cfg.blend_modes { rng.range(0, 18) as u16 } else { 0 };
         let mut opacity = rng.opacity();
+        if cfg.bg_any && i > 0 && kind == LayerKind::Image && rng.chance(1, 6) {
+            flags |= LF_BACKGROUND;
+        }
         if cfg.background && i == 0 && (kind == LayerKind::Image || (cfg.bg_tilemap && matches!(kind, LayerKind::Tilemap(_)))) && rng.chance(1, 4) {
             flags |= LF_BACKGROUND;
             blend = 0;
@@ -453,7 +462,13 @@ pub fn gen_sprite(rng: &mut Rng, cfg: &GenCfg) -> (Sprite, PaletteProgram) {
                         continue;
                     }
                     let tc = sp.cels.get(&(t, l as u16)).unwrap();
-                    let link = CelM { x: tc.x, y: tc.y, opacity: tc.opacity, content: CelContentM::Link(t), ud: gen_opt_ud(rng, cfg) };
+                    let mut link = CelM { x: tc.x, y: tc.y, opacity: tc.opacity, content: CelContentM::Link(t), ud: gen_opt_ud(rng, cfg) };
+                    if cfg.link_junk && rng.chance(1, 2) {
+                        // fields of the link chunk itself: far away, on the canvas, or opacity 0 / 255
+                        link.x = *rng.pick(&[0i16, 100, -2, 4, 32_767, -32_768, tc.x.wrapping_add(1)]);
+                        link.y = *rng.pick(&[0i16, 100, -2, 4, tc.y.wrapping_sub(1)]);
+                        link.opacity = *rng.pick(&[0u8, 255, 128, tc.opacity]);
+                    }
                     sp.cels.insert((f, l as u16), link);
                 }
             }
@@ -485,6 +500,25 @@ pub fn gen_sprite(rng: &mut Rng, cfg: &GenCfg) -> (Sprite, PaletteProgram) {
                     name: gen_name(rng, cfg.extremes),
                     ud: if i < with_ud { Some(gen_ud(rng, cfg.extremes)) } else { None },
                 });
+            }
+            if k >= 2 && rng.chance(1, 3) {
+                // several tags chunks; the records after each chunk go to a prefix of ITS tags
+                let a = rng.range(1, k as i64 - 1) as usize;
+                sp.tag_chunks = vec![a, k - a];
+                let mut start = 0;
+                for n in sp.tag_chunks.clone() {
+                    let w = rng.below(n as u64 + 1) as usize;
+                    for j in 0..n {
+                        let keep = j < w;
+                        let t = &mut sp.tags[start + j];
+                        if keep && t.ud.is_none() {
+                            t.ud = Some(gen_ud(rng, cfg.extremes));
+                        } else if !keep {
+                            t.ud = None;
+                        }
+                    }
+                    start += n;
+                }
             }
         }
         // slices
